@@ -145,6 +145,11 @@ def generate(rs: int, tier: str, index: int) -> dict:
         if numpy.dtype(d2).kind in "ub":  # keep casts value-preserving and order independent
             step["p"]["coefficients"] = [[v if isinstance(v, bool) else ([abs(v[0]), abs(v[1])] if isinstance(v, list) else abs(v)) for v in col] for col in step["p"]["coefficients"]]
         step["mixed"] = [ch.choice(DTYPES) for _ in range(3)]
+        if how == "dict_mixed" and ch.sub("wide").chance(0.6):
+            # 64-bit integers next to a type that promotes them to float64, and a 64-bit integer result requested
+            cw = ch.sub("wide")
+            step["d2"] = d2 = cw.choice(["int64", "int64", "uint64"])
+            step["mixed"] = cw.shuffle([cw.choice(["int64", "uint64"]), cw.choice(["float64", "float32", "float64"]), cw.choice(["int64", "uint64", "float64", "int32"])])
     elif kind == "arith":
         step["op"] = ch.choice(["add", "sub", "mul", "mul", "pow", "mul_scalar", "radd_array", "add_npscalar", "add_npscalar", "add_pyscalar"])
         step["value"] = ch.choice([0, 1, 2, 100])
